@@ -844,9 +844,19 @@ func (k *kvInvoiceUpdater) UpdateAmpState(setID [32]byte,
 			maps.Copy(k.updatedAmpHtlcs[setID], cancelledHtlcs)
 
 		case invpkg.HtlcStateSettled:
-			k.updatedAmpHtlcs[setID] = make(
-				map[models.CircuitKey]*invpkg.InvoiceHTLC,
+			// An HTLC is being added to a set that was settled
+			// before. The HTLCs of a set are written as one value,
+			// so carry over everything already stored for this
+			// set.
+			k.updatedAmpHtlcs[setID] = k.invoice.HTLCSet(
+				&setID, invpkg.HtlcStateSettled,
 			)
+			maps.Copy(k.updatedAmpHtlcs[setID], k.invoice.HTLCSet(
+				&setID, invpkg.HtlcStateAccepted,
+			))
+			maps.Copy(k.updatedAmpHtlcs[setID], k.invoice.HTLCSet(
+				&setID, invpkg.HtlcStateCanceled,
+			))
 		}
 	}
 
